@@ -348,6 +348,18 @@ func (a *Annotations) structClause(cs *StructAnn, word, rest string, sl specLine
 		for _, f := range strings.Fields(rest[i+1:]) {
 			cs.fields[f] = &fieldAnn{kind: "guarded", lock: lock}
 		}
+	case "pointee_guarded_by":
+		// pointee_guarded_by <lock>: fields -- the field is a pointer to a struct the contracts do not
+		// describe (a library type); what it points to is accessed only with the lock held. Stored
+		// under the name "*field".
+		i := strings.Index(rest, ":")
+		if i < 0 {
+			return fmt.Errorf("pointee_guarded_by <lock>: fields")
+		}
+		lock := strings.TrimSpace(rest[:i])
+		for _, f := range strings.Fields(rest[i+1:]) {
+			cs.fields["*"+f] = &fieldAnn{kind: "guarded", lock: lock}
+		}
 	case "single_writer":
 		// single_writer <func> <lockpath>: fields   -- guarded by the lock, written only by <func>
 		i := strings.Index(rest, ":")
@@ -574,6 +586,18 @@ func (g *Gen) resolveAnnotations() {
 			fieldNames[st.Field(i).Name()] = true
 		}
 		for f, fa := range sa.fields {
+			if strings.HasPrefix(f, "*") {
+				// pointee_guarded_by: the field must exist and be a pointer; what it points to is a library
+				// struct, so there are no heap variables of ours to havoc at Lock
+				if !fieldNames[f[1:]] {
+					a.errs = append(a.errs, fmt.Sprintf("%s:%d: struct %s has no field %s", sa.file, sa.line, sa.key, f[1:]))
+				} else if _, isPtr := g.fieldType(st, f[1:]).Underlying().(*types.Pointer); !isPtr {
+					a.errs = append(a.errs, fmt.Sprintf("%s:%d: struct %s: field %s is not a pointer (pointee_guarded_by)", sa.file, sa.line, sa.key, f[1:]))
+				} else if k, _ := g.resolveLockPath(T, fa.lock); k == "" {
+					a.errs = append(a.errs, fmt.Sprintf("%s:%d: struct %s: cannot resolve lock path %s", sa.file, sa.line, sa.key, fa.lock))
+				}
+				continue
+			}
 			if !fieldNames[f] {
 				a.errs = append(a.errs, fmt.Sprintf("%s:%d: struct %s has no field %s", sa.file, sa.line, sa.key, f))
 				continue
